@@ -159,6 +159,9 @@ CLASSIFIERS = {"atol_band_residual": cls_band}
 
 
 def run(ctx):
+    from harness.props import sem_common
+
+    sem_common.run_semantics_suite(ctx, ctx.pick(60, 600))
     rng = ctx.rng
     ctx.rule("all pass sequences up to length L (quick 2, thorough 3) over {8 decomposers, merge, replace CNOT->H.CZ.H, replace "
              "CZ->H.CNOT.H, map by several permutations incl. a 3-cycle, write+parse when printable} from seed circuits covering "
